@@ -256,7 +256,7 @@ def evaluate(ck, sessions, results, initial):
                         bad("C09:any-keyword-silently-swallowed", "%s: the keyword __ANY__ passes the argument check and is silently ignored" % c,
                             expected="refused")
                     else:
-                        bad("C09:non-member-keyword-accepted:%s" % c, "keyword %r is no member of %s but the factory returns a component" % (key, c),
+                        bad("C09:non-member-keyword-accepted", "keyword %r is no member of %s but the factory returns a component" % (key, c),
                             expected="refused")
             elif kind == "ctor-keyword":
                 if code != 0:
@@ -265,21 +265,21 @@ def evaluate(ck, sessions, results, initial):
             else:
                 if on:
                     if code == 0 and not r.get("ret_valid"):
-                        bad("C09:invalid-component-handed-back:%s" % c, "validation is on, the factory returned a %s that an explicit validate() "
+                        bad("C09:invalid-component-handed-back", "validation is on, the factory returned a %s that an explicit validate() "
                             "rejects (%s)" % (c, r.get("ret_validate_exc")), expected="ValueError or a valid component")
                     if code != 0 and r.get("exc_type") != "ValueError":
-                        bad("C09:raises-other-than-ValueError:%s" % c, "validation is on and the factory raises %s" % r.get("exc"))
+                        bad("C09:raises-other-than-ValueError", "validation is on and the factory raises %s" % r.get("exc"))
                     if "direct" in r and (code == 0) != bool(r.get("vchild")):
-                        bad("C09:factory-verdict-differs-from-validate:%s" % c, "the factory %s although validate() on the same component says %s"
+                        bad("C09:factory-verdict-differs-from-validate", "the factory %s although validate() on the same component says %s"
                             % ("returns" if code == 0 else "raises", r.get("vchild")))
                 else:
                     if code != 0:
-                        bad("C09:validation-off-but-refused:%s" % c, "validation is off (switch %s, flag %s) but the factory raises %s"
+                        bad("C09:validation-off-but-refused", "validation is off (switch %s, flag %s) but the factory raises %s"
                             % (enabled, op["validate"], r.get("exc")), expected="the component, unvalidated")
                     elif "direct" in r and r.get("ret") != r["direct"]:
-                        bad("C09:validation-off-different-component:%s" % c, "the component handed back differs from the constructor's")
+                        bad("C09:validation-off-different-component", "the component handed back differs from the constructor's")
                 if code == 0 and r.get("ret_cls") != c:
-                    bad("C09:wrong-class:%s" % c, "asked for %s, got %s" % (c, r.get("ret_cls")))
+                    bad("C09:wrong-class", "asked for %s, got %s" % (c, r.get("ret_cls")))
             try:
                 if '"f": "!' not in json.dumps(r):
                     rows.append(fcase_coq(op, r, enabled))
@@ -338,7 +338,7 @@ def add_predicate(ck, cases_res):
                 ck.witness("C09:call-changes-the-global-switch", "add() changed the global switch", input=inp)
             if call.get("typo"):
                 if code == 0 or r["changed"]:
-                    ck.witness("C09:non-member-keyword-accepted:add:%s" % call["child"]["cls"], "add(<class>, %s=..) is accepted" % call["typo"],
+                    ck.witness("C09:non-member-keyword-accepted:add", "add(<class>, %s=..) is accepted" % call["typo"],
                                input=inp, observed=r.get("code"))
                 continue
             if on and code == 0 and not (r.get("vparent") and r.get("vchild")):
